@@ -123,6 +123,9 @@ def assigned_names(stmts) -> List[str]:
     out = []
 
     def tgt(t):
+        if isinstance(t, ast.Subscript) and isinstance(t.value, ast.Name):
+            if t.value.id not in out:
+                out.append(t.value.id)
         if isinstance(t, ast.Name):
             if t.id not in out:
                 out.append(t.id)
@@ -154,6 +157,13 @@ def assigned_names(stmts) -> List[str]:
             if n.name not in out:
                 out.append(n.name)
 
+        def visit_Call(self, n):
+            # in-place mutation of a local container: xs.append(...), d.update(...)
+            f = n.func
+            if isinstance(f, ast.Attribute) and isinstance(f.value, ast.Name) and f.attr in _MUTATORS and f.value.id not in out:
+                out.append(f.value.id)
+            self.generic_visit(n)
+
         def visit_Lambda(self, n):
             pass
 
@@ -161,6 +171,8 @@ def assigned_names(stmts) -> List[str]:
         V().visit(s)
     return out
 
+
+_MUTATORS = {"append", "extend", "add", "update", "remove", "pop", "insert", "clear", "sort", "reverse", "setdefault"}
 
 _BIN = {ast.Add: operator.add, ast.Sub: operator.sub, ast.Mult: operator.mul, ast.Div: operator.truediv,
         ast.FloorDiv: operator.floordiv, ast.Mod: operator.mod, ast.Pow: operator.pow, ast.MatMult: operator.matmul}
@@ -186,6 +198,7 @@ class Interp:
         self.loops = loops
         self.tag = tag
         self.obls: List[Obl] = []
+        self.containers: Dict[str, Callable] = {}
         self.n_loops = 0
         self.n_fresh = 0
         self.feas_timeout_ms = feas_timeout_ms
@@ -448,6 +461,10 @@ class Interp:
             raise PyvcUnsupported(f"assignment target {type(target).__name__}")
 
     def st_Assign(self, s, st):
+        if (len(s.targets) == 1 and isinstance(s.targets[0], ast.Name) and s.targets[0].id in self.containers
+                and ((isinstance(s.value, ast.List) and not s.value.elts) or (isinstance(s.value, ast.Dict) and not s.value.keys))):
+            st.env[s.targets[0].id] = self.containers[s.targets[0].id]()     # sidecar-declared symbolic container for an empty literal
+            return [st]
         v = self.ev(s.value, st)
         for t in s.targets:
             self.bind(t, v, st)
@@ -613,6 +630,68 @@ class Interp:
                 out += self.run_block(s.orelse, [exit_st])
             else:
                 out.append(exit_st)
+        return out
+
+    def st_For(self, s, st):
+        """for <targets> in <symbolic sequence>: same scheme as while, with the loop index k as a ghost:
+        invariant(st, k); body assumes 0 <= k < len and binds the targets to item(k); exit assumes k == len."""
+        kk = self._loop_ids[id(s)]
+        spec = self.loops.get(kk)
+        it = self.ev(s.iter, st)
+        if not hasattr(it, "pyvc_iter"):
+            # concrete iterable: unroll
+            out = []
+            states = [st]
+            for item in it:
+                nxt = []
+                for s_ in states:
+                    if s_.sig != NORMAL:
+                        out.append(s_) if s_.sig not in (CONTINUE,) else None
+                        continue
+                    self.bind(s.target, item, s_)
+                    for e_ in self.run_block(s.body, [s_]):
+                        if e_.sig == CONTINUE:
+                            e_.sig = NORMAL
+                        if e_.sig == BREAK:
+                            e_.sig = NORMAL
+                            out.append(e_)
+                        else:
+                            nxt.append(e_)
+                states = nxt
+            return out + states
+        if spec is None:
+            raise PyvcUnsupported(f"loop #{kk} (line {s.lineno}) has no invariant in the sidecar")
+        length, item = it.pyvc_iter()
+        lname = spec.name or f"loop{kk}"
+        self.oblige(st, f"{lname}/invariant.on-entry", spec.invariant(st, z3.IntVal(0)), {"line": s.lineno})
+        names = [n for n in assigned_names(s.body) if n in st.env] + [n for n in assigned_names([ast.Assign(targets=[s.target], value=ast.Constant(0), lineno=s.lineno)])]
+        h = st.fork()
+        k = self.fresh(f"{lname}_k", "int")
+        for n in assigned_names(s.body):
+            if n not in h.env:
+                h.env[n] = UNBOUND
+        self._havoc(h, [n for n in assigned_names(s.body)], spec)
+        h.assume(spec.invariant(h, k))
+        h.log = []
+        out = []
+        body_st, exit_st = h.fork(), h
+        body_st.assume(z3.And(k >= 0, k < length))
+        if self.feasible(body_st):
+            self.bind(s.target, item(k), body_st)
+            if spec.on_iteration_start:
+                spec.on_iteration_start(self, body_st, k)
+            ends = self.run_block(s.body, [body_st])
+            for i, e_ in enumerate(ends):
+                if e_.sig in (NORMAL, CONTINUE):
+                    e_.sig = NORMAL
+                    self.oblige(e_, f"{lname}/path{i}/invariant.preserved", spec.invariant(e_, k + 1), {"line": s.lineno})
+                elif e_.sig == BREAK:
+                    raise PyvcUnsupported("break inside a for loop over a symbolic sequence")
+                else:
+                    out.append(e_)
+        exit_st.assume(k == length)
+        exit_st.assume(length >= 0)
+        out.append(exit_st)
         return out
 
     # ---------------------------------------------------------------- entry
